@@ -2,7 +2,7 @@
 objects, computes the real jug identifier while recording every chunk fed to sha1, and emits, per
 spec, the digest and a Gallina case literal (pv, observed token stream).
 
-usage: python -m harness.hashworker <specs.json> <out.json> <variant:int>
+usage: python -m harness.hashworker <specs.json> <out.json> <variant:int> [iso]
 
 Spec language (JSON lists):
   ["leaf", "<python expr>"]                       atomic value, e.g. "None", "2**70", "'a'", "np.float32(1.5)"
@@ -319,9 +319,59 @@ def count_nodes(spec):
     return n
 
 
+def ident(obj):
+    if isinstance(obj, Task):
+        d = obj.hash()
+    elif isinstance(obj, Tasklet):
+        d = obj.__jug_hash__()
+    else:
+        d = hash_one(obj)
+    return d.decode() if isinstance(d, bytes) else str(d)
+
+
+def isolated(specs, variant):
+    """mode 'iso': this process never hashes anything; every spec is hashed in a forked child, i.e. in an interpreter
+    that has computed no identifier before.  ["seq", [s1, .., sn]] hashes s1..sn in this order in ONE child and
+    reports the identifier of sn."""
+    import os
+    out = []
+    for idx, spec in enumerate(specs):
+        r, w = os.pipe()
+        pid = os.fork()
+        if pid == 0:
+            rec = {'i': idx}
+            try:
+                os.close(r)
+                seq = spec[1] if spec[0] == 'seq' else [spec]
+                for k, sp in enumerate(seq):
+                    jugrun.fresh()
+                    rec['digest'] = ident(realise(sp, random.Random(variant * 1000003 + idx + 31 * k), {}))
+            except BaseException as e:
+                rec.pop('digest', None)
+                rec['error'] = '%s: %s' % (type(e).__name__, e)
+            try:
+                os.write(w, json.dumps(rec).encode())
+            finally:
+                os._exit(0)
+        os.close(w)
+        data = b''
+        while True:
+            b = os.read(r, 65536)
+            if not b:
+                break
+            data += b
+        os.close(r)
+        os.waitpid(pid, 0)
+        out.append(json.loads(data.decode()) if data else {'i': idx, 'error': 'child died'})
+    return out
+
+
 def main():
     specs = json.load(open(sys.argv[1]))
     variant = int(sys.argv[3])
+    if len(sys.argv) > 4 and sys.argv[4] == 'iso':
+        json.dump(isolated(specs, variant), open(sys.argv[2], 'w'))
+        return
     out = []
     for idx, spec in enumerate(specs):
         rng = random.Random(variant * 1000003 + idx)
